@@ -31,8 +31,20 @@ Definition translate (tbl : list (N * str)) (s : str) : str := flat_map (cce_loo
 Definition esc_text : str -> str := translate pp_cce_text.
 Definition esc_attr : str -> str := translate pp_cce_attr.
 
+(* reading character data back: the four entities of the generated tables *)
+Fixpoint unesc (s : str) : str :=
+  match s with
+  | 38 :: 97 :: 109 :: 112 :: 59 :: r => 38 :: unesc r                      (* &amp; *)
+  | 38 :: 103 :: 116 :: 59 :: r => 62 :: unesc r                            (* &gt; *)
+  | 38 :: 108 :: 116 :: 59 :: r => 60 :: unesc r                            (* &lt; *)
+  | 38 :: 113 :: 117 :: 111 :: 116 :: 59 :: r => 34 :: unesc r              (* &quot; *)
+  | c :: r => c :: unesc r
+  | [] => []
+  end%N.
+
 Inductive chunk :=
 | KText (s : str)                        (* character data: written escaped, re-read as the text s *)
+| KRaw (e : str)                         (* character data given as the escaped text that was written *)
 | KComment (s : str)
 | KPI (target content : str)
 | KElem (ns name : str) (attrs : list attr) (open close : str) (kids : list chunk).
@@ -47,6 +59,7 @@ Definition pi_str (t c : str) : str := s_pi_open ++ t ++ [SP] ++ c ++ s_pi_close
 Fixpoint render (k : chunk) : str :=
   match k with
   | KText s => esc_text s
+  | KRaw e => e
   | KComment s => comment_str s
   | KPI t c => pi_str t c
   | KElem _ _ _ o c kids => o ++ flat_map render kids ++ c
@@ -54,6 +67,7 @@ Fixpoint render (k : chunk) : str :=
 Fixpoint seen (k : chunk) : node :=
   match k with
   | KText s => Text s
+  | KRaw e => Text (unesc e)
   | KComment s => Comment s
   | KPI t c => PI t c
   | KElem ns name attrs _ _ kids => Tag ns name attrs (map seen kids)
